@@ -912,6 +912,164 @@ def backend_kill_stream(ctx, plans):
         shutil.rmtree(tmp, ignore_errors=True)
 
 
+# --------------------------------------------------------------------------
+# polling a growing std.out at EVERY cut position: real LocalBackend vs poll_model / delivered_upto
+# --------------------------------------------------------------------------
+SLEEP_SCRIPT = r"""
+import os, sys, time
+args = dict(zip(sys.argv[1::2], sys.argv[2::2]))
+t0 = time.time()
+while not os.path.exists(os.path.join(args["--sync_dir"], "finish")) and time.time() - t0 < 120:
+    time.sleep(0.05)
+"""
+
+POLL_PRELUDE = PRELUDE + r"""
+Definition the_cs : list chunk := @CS@.
+Definition the_text : list Z := @TEXT@.
+(* (n, k): std.out held the first n characters; the real LocalBackend poll parsed the first k payloads *)
+Definition chk_poll (c : nat * nat) : bool :=
+  let '(n, k) := c in
+  let want := firstn k (payloads_of the_cs) in
+  text_eqb (render the_cs) the_text && payloads_ok the_cs && noise_ok the_cs &&
+  texts_eqb (poll_model (firstn n the_text)) want && texts_eqb (delivered_upto the_cs n) want.
+"""
+
+
+def gen_poll_streams(rng):
+    """[(chunks, sent)] with chunks = [("noise", text) | ("report", kwargs)]; the text is produced by the real Reporter"""
+    fixed = [("noise", "noise {"), ("report", dict(a=1)), ("report", dict(b={"c": {"d": 2}}, s="}")), ("noise", "x}\n[tune-metri"),
+             ("report", dict(t="[tune-metric]: {}", n=[1, {"x": 2}])), ("noise", "tail } without newline")]
+    streams = [fixed]
+    for _ in range(30):
+        chunks, acc = [], ""
+        for _ in range(rng.randint(3, 6)):
+            if rng.random() < 0.45:
+                s = gen_noise(rng, acc)
+                if "\r" in s:
+                    continue
+                acc += s
+                chunks.append(("noise", s))
+            else:
+                kw = {}
+                for k in rng.sample(["a", "loss", "}", "x y", TAGTXT, "é"], rng.randint(1, 2)):
+                    kw[k] = rng.choice([1, 0.5, "}", {"n": {"m": 1}}, [1, {"z": "}"}], "[tune-metric]: {", float("inf"), True, "é{"])
+                chunks.append(("report", kw))
+                acc = ""
+        if any(c[0] == "report" for c in chunks):
+            streams.append(chunks)
+            break
+    return streams
+
+
+def polling_stream(ctx, streams):
+    import logging
+    import shutil
+    from syne_tune.backend import LocalBackend
+    from syne_tune.report import Reporter
+    tmp = tempfile.mkdtemp(prefix="c18_poll_")
+    logging.getLogger("syne_tune").setLevel(logging.WARNING)
+    backend, trials = None, []
+    try:
+        script = os.path.join(tmp, "sleeper.py")
+        open(script, "w").write(SLEEP_SCRIPT)
+        sink = io.StringIO()
+        with contextlib.redirect_stdout(sink), contextlib.redirect_stderr(sink):
+            backend = LocalBackend(entry_point=script, rotate_gpus=False)
+            backend.set_path(results_root=os.path.join(tmp, "results"))
+        for si, chunks in enumerate(streams):
+            sync = os.path.join(tmp, "sync%d" % si)
+            os.makedirs(sync)
+            with contextlib.redirect_stdout(sink), contextlib.redirect_stderr(sink):
+                trial = backend.start_trial(config={"sync_dir": sync})
+            trials.append((trial.trial_id, sync))
+        for (tid, sync), chunks in zip(trials, streams):
+            case = dict(kind="poll", chunks=[[c[0], c[1]] for c in chunks])
+            # the stream, written by the real Reporter
+            buf = io.StringIO()
+            cs_terms, ends, sent, payloads = [], [], [], []
+            with contextlib.redirect_stdout(buf):
+                rep = Reporter()
+                for kind, v in chunks:
+                    if kind == "noise":
+                        sys.stdout.write(v)
+                        cs_terms.append("Noise %s" % tx(v))
+                    else:
+                        before = buf.tell()
+                        rep(**v)
+                        line = buf.getvalue()[before:]
+                        payloads.append(line[len("[%s]: " % TAGTXT):-1])
+                        cs_terms.append("Report %s" % tx(payloads[-1]))
+                        ends.append(buf.tell())
+                        sent.append(json.loads(json.dumps(v)))
+            text = buf.getvalue()
+            path = str(backend.trial_path(tid) / "std.out")
+            delivered, cases, bad = [], [], None
+            for n in range(len(text) + 1):
+                if n > 0:
+                    with open(path, "ab") as f:          # the training script's output grows by one character
+                        f.write(text[n - 1].encode("utf-8"))
+                seen = []
+                orig = json.loads
+
+                def spy(s_, *a, **k):
+                    seen.append(s_)
+                    return orig(s_, *a, **k)
+
+                try:
+                    with mock.patch.object(json, "loads", spy):
+                        _, res = backend.fetch_status_results([tid])
+                except Exception as e:  # noqa
+                    ctx.violation("property", "LocalBackend.fetch_status_results raised %s (%s) with the first %d characters %r of the "
+                                  "stream in std.out" % (type(e).__name__, str(e)[:100], n, text[max(0, n - 60):n]), case=case,
+                                  signature=dict(component="LocalBackend", defect="poll_during_partial_report_line_raises",
+                                                 exception=type(e).__name__))
+                    bad = n
+                    break
+                delivered += [{k: v for k, v in m.items() if k not in RESERVED} for _, m in res]
+                want = [kw for kw, e in zip(sent, ends) if e <= n]
+                if len(delivered) == len(want) + 1 and n + 1 in ends:
+                    want = [kw for kw, e in zip(sent, ends) if e <= n + 1]   # complete payload, only its newline missing: also fine
+                ctx.count(("poll", chunks, n), nontrivial=n not in ends and n > 0)
+                if not (len(delivered) == len(want) and all(same(a, b) for a, b in zip(delivered, want))):
+                    ctx.violation("property", "LocalBackend polled with the first %d characters of the stream in std.out: delivered so far %r, "
+                                  "reports completely written so far %r" % (n, delivered, want), case=case,
+                                  signature=dict(component="LocalBackend", defect="report_lost_or_duplicated_across_polls"))
+                    bad = n
+                    break
+                k = len(seen)
+                if seen != payloads[:k]:
+                    if any(x not in payloads for x in seen):
+                        ctx.violation("correspondence", "LocalBackend poll at %d parsed %r, not a prefix of the payloads" % (n, seen),
+                                      case=case, failing_input=False, broken="correspondence chk_poll (model/Report.v poll_model)")
+                        bad = n
+                        break
+                    k = None       # json.loads is used for something else too: raw-group comparison not possible
+                if k is not None:
+                    cases.append((n, k))
+            ctx.h("poll_stream_chars", len(text) // 100 * 100)
+            ctx.h("poll_positions", "polled", len(text) + 1)
+            ctx.traces_validated += 1
+            if cases:
+                prelude = POLL_PRELUDE.replace("@CS@", lst(cs_terms)).replace("@TEXT@", tx(text))
+                terms = ["(%s, %s)" % (natlit(n), natlit(k)) for n, k in cases]
+                for i in ctx.coq_bad_cases("poll%d" % trials.index((tid, sync)), IMPORTS, prelude, "chk_poll", terms, shard=400):
+                    ctx.violation("correspondence", "model poll_model / delivered_upto differs from the real LocalBackend poll at cut %d "
+                                  "(real parsed %d payloads)" % cases[i], case=dict(case, cut=cases[i][0]), failing_input=False,
+                                  broken="correspondence chk_poll (model/Report.v poll_model, delivered_upto)")
+            ctx.sample(dict(kind="polling_stream", chunks=case["chunks"], stream=text[:400], polls=len(text) + 1))
+    finally:
+        for tid, sync in trials:
+            open(os.path.join(sync, "finish"), "w").close()
+        for tid, sync in trials:
+            proc = backend.trial_subprocess.get(tid) if backend else None
+            if proc is not None:
+                try:
+                    proc.wait(timeout=10)
+                except Exception:  # noqa
+                    proc.kill()
+        shutil.rmtree(tmp, ignore_errors=True)
+
+
 def prefix_cases(ctx, rng, lines_cases, lines_meta):
     """retrieve() on every prefix of a stream (a reader that sees the file while it grows): either exactly the
     complete reports so far, or an exception caused by the cut line — never a wrong or missing dictionary"""
@@ -977,6 +1135,9 @@ def run(ctx, replay=None):
         elif replay.get("kind") == "backend_kill":
             backend_kill_stream(ctx, replay["plans"])
             return
+        elif replay.get("kind") == "poll":
+            polling_stream(ctx, [[tuple(c) for c in replay["chunks"]]])
+            return
     else:
         for p in sorted(glob.glob(os.path.join(VERIF, "corpus", "C18", "*.json"))):
             c = json.load(open(p))
@@ -1005,6 +1166,7 @@ def run(ctx, replay=None):
         prefix_cases(ctx, rng, lines_cases, lines_meta)
         backend_stream(ctx, gen_backend_plans(rng))
         backend_kill_stream(ctx, gen_kill_plans(rng))
+        polling_stream(ctx, gen_poll_streams(rng))
     for i in ctx.coq_bad_cases("lines", IMPORTS, PRELUDE, "chk_lines", lines_cases, shard=150):
         ctx.violation("correspondence", "model readlines/retrieve_model differs from readlines()+re.findall of the real retrieve",
                       case=lines_meta[i], failing_input=False, broken="correspondence chk_lines (model/Report.v retrieve_model)")
